@@ -3,16 +3,19 @@ from props import COMMON_TRUST
 
 def visitor_nontrivial(tok, res):
     k = tok[0]
-    if k in ("conn", "svis"):
-        return res.startswith(("queued", "dropped", "ok:", "err:auth", "err:notallowed", "err:closed", "err:norun"))
+    if k in ("conn", "svis", "vbegin", "vend"):
+        return res.startswith(("queued", "dropped", "paused", "ok:", "err:auth", "err:notallowed", "err:closed", "err:norun",
+                               "err:encfail"))
     if k in ("natv", "snat"):
         return res.startswith(("sid:", "preok", "err:auth", "err:notallowed"))
     if k == "accept":
         return res.startswith("c")
     if k == "drain":
         return res != "-"
-    if k in ("sreg", "listen", "nlisten"):
-        return res in ("exists", "repeated")
+    if k in ("sreg", "listen", "nlisten", "close"):
+        return res in ("exists", "repeated", "blocked")
+    if k == "echo":
+        return res != "none"
     return False
 
 
@@ -24,6 +27,9 @@ def visitor_class(r):
         return head.split(":")[0]
     if head.startswith("c") and head[1:2].isdigit():
         return "conn" + (":bytes-bad" if "bytes-bad" in head else "")
+    if " w=[" in r:
+        ws = r.split(" w=[", 1)[1]
+        return head[:16] + (" +writers" if ws != "]" else "")
     if head.startswith("x"):
         return "hex"
     if "=" in head:
@@ -46,6 +52,11 @@ PROP = {
             "Frp.C08.qinv_reachable", "Frp.C08.reachable_fixed_all_granted_sound", "Frp.C08.step_refused_unchanged",
             "Frp.C08.mirror", "Frp.C08.decode_encode", "Frp.C08.transparent", "Frp.C08.holdsOn_sound",
             "Frp.C08.holdsOn_sound_nat", "Frp.C08.model_holdsOn", "Frp.C08.model_holdsOn_nat_fixed",
+            "Frp.C08.finv_step", "Frp.C08.finv_reachable", "Frp.C08.newConn_eq_checks_put", "Frp.C08.finishPut_is_newConn",
+            "Frp.C08.finish_refines_newConn", "Frp.C08.finish_delivery_sound", "Frp.C08.write_waits_for_readers",
+            "Frp.C08.finish_failed_unchanged", "Frp.C08.begin_refused_unchanged", "Frp.C08.begin_atomic",
+            "Frp.C08.cqinv_step", "Frp.C08.cqinv_reachable", "Frp.C08.deliveredOkB_iff",
+            "Frp.C08.reachable_accept_delivered_ok",
         ],
         "engines": [
             {"name": "visitor", "quick_n": 6000, "thorough_n": 20000, "thorough_seeds": 5,
@@ -53,18 +64,25 @@ PROP = {
              "nontrivial": visitor_nontrivial, "result_class": visitor_class},
         ],
         "rule": "visitor engine: (A) the real visitor.Manager and nathole.Controller driven directly, the harness holding "
-                "every listener / sid channel ever returned (accept, drain = negative oracle); (B) one real server.Service "
+                "every listener / sid channel ever returned (accept, drain = negative oracle: every connection that comes out "
+                "of a listener is checked against the key and list that very listener was registered with, and the stream "
+                "is exercised both ways, again later while other streams are open); NewConn calls are held up inside "
+                "WithEncryption (gate on crypto/rand.Reader, also made to fail) while the same name is closed, registered "
+                "again with another key / list, its listener closed or emptied — Listen / CloseListener must wait for the "
+                "manager's lock until the NewConn has returned; (B) one real server.Service "
                 "on loopback with scripted raw peers (login, NewProxy stcp/sudp/xtcp, NewVisitorConn with own/empty/unknown/"
                 "foreign run ids, NatHoleVisitor with pre-check on/off, CloseProxy, disconnect), owners checked for "
                 "ReqWorkConn by a ping barrier, admitted streams echoed both ways under all enc/comp declarations. "
                 "A case is non-trivial when a request is admitted or refused for the key, the user, the run id or a "
                 "closed listener; distinct = distinct (op line, result) pairs",
         "trusted": COMMON_TRUST + [
-            "model Frp/Model/Visitor.lean (+ Frp/Model/Md5.lean for the driver) written by hand; tied by the visitor engine "
+            "models Frp/Model/Visitor.lean, Frp/Model/VisitorLock.lean (+ Frp/Model/Md5.lean for the driver) written by hand; tied by the visitor engine "
             "(real visitor.Manager.Listen/NewConn/CloseListener, InternalListener.PutConn/Close/Accept, nathole.Controller."
             "ListenClient/CloseClient/HandleVisitor, util.GetAuthKey, and through a real server.Service: RegisterControl, "
             "Control.RegisterProxy/CloseProxy, stcp/sudp/xtcp Run/Close, RegisterVisitorConn, handleNatHoleVisitor)",
             "verif hook pkg/nathole/verif_export.go (VerifSessions: number of stored sessions)",
+            "the harness replaces crypto/rand.Reader by a pass-through reader that stops only calls coming from a vbegin "
+            "goroutine (the one place where NewConn can be held up without touching frp)",
         ],
         "assumptions": [
             "theorems hold for an arbitrary key derivation H; nothing about md5 (collision resistance, secrecy of sk given "
@@ -76,6 +94,10 @@ PROP = {
             "and notifies nobody",
             "GenSid never repeats a live session id; NatHoleTimeout set to 0 in the harness so that an admitted NAT-hole "
             "round ends at once (what follows the notification is C20's subject)",
+            "interleavings: NewConn is modelled in two steps (lookup + checks | wrappers + PutConn) with the manager's "
+            "RWMutex (writers wait for readers, in arrival order from one owner goroutine; a reader arriving behind a "
+            "waiting writer is not driven); only the direct manager (layer A) is driven with held-up NewConn calls, and "
+            "only calls that declare encryption can be held up",
             "byte transparency is proved on an abstract layer algebra (which end applies which of enc/comp, with which key) "
             "and sampled on the real AES/snappy wrappers by the echo through the real proxy; bandwidth limiter, plugins "
             "and the client-side visitor/proxy code are not driven here (C01/C19)",
@@ -94,10 +116,13 @@ META = {
                 "run id) is in the allow list or the list contains *; with no list configured the list is exactly the "
                 "owner's user; every other request gets an error and the whole server state is unchanged; over all "
                 "histories everything waiting in any accept queue was admitted under the key and list of the entry "
-                "holding it. The NAT-hole request branch checks the key but not the allow list: witness proved and "
+                "holding it — also for every interleaving of NewConn (held up between its checks and the hand-over) with "
+                "Listen / CloseListener under the manager's lock: the listener a connection is handed to is the one "
+                "registered under the requested name at that moment and the one it was checked against. The NAT-hole request branch checks the key but not the allow list: witness proved and "
                 "reproduced on the real code (known finding), full theorem proved for the repaired branch "
                 "(hooks/C08-fix-nathole-allowusers.patch, switch Visitor.natFixed).",
         "note": "Trusted: Lean kernel; hand-written model tied by the visitor engine. Not covered: the client side "
                 "(frpc visitor and proxy), real AES/snappy beyond the sampled echo, races between closure and admission "
-                "(C16/C20), and that run ids are unguessable.",
+                "in the NAT-hole controller and the service layer (C16/C20; the stream manager's own lock is covered here), "
+                "and that run ids are unguessable.",
     }
